@@ -98,9 +98,24 @@ def m_box_new_uninit(c, *a):
 def m_box_assume_init(c, b):
     ip = c.ip
     if 'into_vec' in c.callee:
-        v = deref(ip, b)
+        v = unwrap_maybeuninit(deref(ip, b))
         return Seq(list(seq_items(v)), 'vec')
+    if 'assume_init' in c.callee:
+        v = ip.load(b.cell, b.path)
+        ip.store(b.cell, b.path, unwrap_maybeuninit(v))
     return b
+
+
+def unwrap_maybeuninit(v):
+    """MaybeUninit<T> written field-wise as (*p).1.0.0 = value: peel the union / ManuallyDrop / MaybeDangling wrappers."""
+    n = 0
+    while isinstance(v, Agg) and v.ty is None and n < 4:
+        inner = [f for f in v.fields if f is not None]
+        if len(inner) != 1:
+            break
+        v = inner[0]
+        n += 1
+    return v
 
 
 @model(r'^(?:std::mem::)?MaybeUninit::<.*>::(write)$')
@@ -906,3 +921,150 @@ def m_bytesmut_from(c, s):
 def m_bytesmut_write_str(c, p, s):
     put(c.ip, p, list(items(c.ip, s)))
     return ok(c.ip, unit())
+
+
+def pattern_bytes(ip, pat):
+    if isinstance(pat, BV):
+        return encode_char(ip, pat)
+    return list(items(ip, pat))
+
+
+def find_all(ip, si, pi):
+    """Non-overlapping left-to-right match positions of the (non-empty) pattern pi in si (forks on symbolic bytes)."""
+    out = []
+    i = 0
+    n, k = len(si), len(pi)
+    if k == 0:
+        raise Inconclusive("empty pattern")
+    while i + k <= n:
+        if ip.branch(conj([val_eq(ip, a, b) for a, b in zip(si[i:i + k], pi)]), 'find'):
+            out.append(i)
+            i += k
+        else:
+            i += 1
+    return out
+
+
+@model(r'^(?:\w+::)*str::<impl str>::replace::<(.*)>$')
+def m_str_replace(c, s, pat, to):
+    ip = c.ip
+    si = list(items(ip, s))
+    pi = pattern_bytes(ip, pat)
+    ti = list(items(ip, to))
+    pos = find_all(ip, si, pi)
+    out = []
+    i = 0
+    for p in pos:
+        out.extend(si[i:p])
+        out.extend(ti)
+        i = p + len(pi)
+    out.extend(si[i:])
+    return Seq(out, 'string')
+
+
+@model(r'^(?:\w+::)*str::<impl str>::(split|splitn|rsplit|split_terminator)::<(.*)>$')
+def m_str_split(c, s, *a):
+    ip = c.ip
+    op = c.m.group(1)
+    if op == 'splitn':
+        lim, pat = a
+        limit = concrete_int(ip, lim, 'splitn', 64)
+    else:
+        pat = a[0]
+        limit = None
+    base = seq(ip, s)
+    si = list(base.items)
+    pi = pattern_bytes(ip, pat)
+    pos = find_all(ip, si, pi)
+    if limit is not None:
+        pos = pos[:max(0, limit - 1)]
+    parts = []
+    i = 0
+    for p in pos:
+        parts.append((i, p))
+        i = p + len(pi)
+    parts.append((i, len(si)))
+    if op == 'split_terminator' and parts and parts[-1][0] == parts[-1][1]:
+        parts.pop()
+    out = [Ptr(Cell(SeqView(base, a0, b0 - a0), 'split'), ()) for a0, b0 in parts]
+    if op == 'rsplit':
+        out.reverse()
+    return IterV(out)
+
+
+@model(r'^(?:\w+::)*str::<impl str>::(split_once|rsplit_once)::<(.*)>$')
+def m_str_split_once(c, s, pat):
+    ip = c.ip
+    base = seq(ip, s)
+    si = list(base.items)
+    pi = pattern_bytes(ip, pat)
+    k = len(pi)
+    rng = range(0, len(si) - k + 1)
+    if c.m.group(1) == 'rsplit_once':
+        rng = reversed(rng)
+    for i in rng:
+        if ip.branch(conj([val_eq(ip, a, b) for a, b in zip(si[i:i + k], pi)]), 'split_once'):
+            return some(ip, Agg([Ptr(Cell(SeqView(base, 0, i), 'l'), ()), Ptr(Cell(SeqView(base, i + k, len(si) - i - k), 'r'), ())], 'tuple'))
+    return none(ip)
+
+
+@model(r'^(?:\w+::)*str::<impl str>::(find|rfind)::<(.*)>$')
+def m_str_find(c, s, pat):
+    ip = c.ip
+    si = list(items(ip, s))
+    pi = pattern_bytes(ip, pat)
+    k = len(pi)
+    rng = range(0, len(si) - k + 1)
+    if c.m.group(1) == 'rfind':
+        rng = reversed(rng)
+    for i in rng:
+        if ip.branch(conj([val_eq(ip, a, b) for a, b in zip(si[i:i + k], pi)]), 'find'):
+            return some(ip, BV(64, i))
+    return none(ip)
+
+
+@model(r'^(?:\w+::)*str::<impl str>::(trim_matches|trim_start_matches|trim_end_matches|strip_prefix|strip_suffix)::<(.*)>$')
+def m_str_trim_matches(c, s, pat):
+    ip = c.ip
+    op = c.m.group(1)
+    base = seq(ip, s)
+    si = list(base.items)
+    pi = pattern_bytes(ip, pat)
+    k = len(pi)
+    lo, hi = 0, len(si)
+    if op in ('strip_prefix', 'strip_suffix'):
+        if k <= len(si):
+            seg = si[:k] if op == 'strip_prefix' else si[len(si) - k:]
+            if ip.branch(conj([val_eq(ip, a, b) for a, b in zip(seg, pi)]), op):
+                lo, hi = (k, len(si)) if op == 'strip_prefix' else (0, len(si) - k)
+                return some(ip, Ptr(Cell(SeqView(base, lo, hi - lo), op), ()))
+        return none(ip)
+    if op in ('trim_matches', 'trim_start_matches'):
+        while lo + k <= hi and ip.branch(conj([val_eq(ip, a, b) for a, b in zip(si[lo:lo + k], pi)]), op):
+            lo += k
+    if op in ('trim_matches', 'trim_end_matches'):
+        while hi - k >= lo and ip.branch(conj([val_eq(ip, a, b) for a, b in zip(si[hi - k:hi], pi)]), op):
+            hi -= k
+    return Ptr(Cell(SeqView(base, lo, hi - lo), op), ())
+
+
+@model(r'^(?:\w+::)*slice::<impl \[(.*)\]>::(sort|sort_unstable)$')
+def m_slice_sort(c, p):
+    ip = c.ip
+    s = seq(ip, p)
+    its = list(s.items)
+    if not all(isinstance(x, BV) for x in its):
+        raise Inconclusive("sort of non-integers")
+    it = int_type(c.m.group(1).strip()) or (64, False)
+    # insertion sort with symbolic comparisons (forks)
+    out = []
+    for x in its:
+        i = len(out)
+        while i > 0 and ip.branch(ip.binop('Lt', x, out[i - 1], it[1], 'sort'), 'sort'):
+            i -= 1
+        out.insert(i, x)
+    base = s.base if isinstance(s, SeqView) else s
+    off = s.start if isinstance(s, SeqView) else 0
+    for i, v in enumerate(out):
+        base.items[off + i] = v
+    return unit()
